@@ -1,0 +1,21 @@
+//go:build verif
+
+// Contracts for package apis/trafficpattern (comment-only; read by /verif/govc).
+
+package trafficpattern
+
+//@ // Implicit nonce settings (C16): explicitly configured values are never overridden,
+//@ // and the effective pattern always passes validation - for every valid original
+//@ // pattern, seed and unlock-all flag. The effective pattern starts as a clone of the
+//@ // original (NewConfig), which is what the second precondition says for this message.
+//@ func (c *Config) generateNoncePattern(seed int, unlockAll bool)
+//@   property C16
+//@   mode int
+//@   noframe
+//@   requires c != nil && c.original != nil && c.effective != nil && nonceLensValid(c.original.Nonce)
+//@   requires c.original.Nonce == nil ==> c.effective.Nonce == nil
+//@   requires c.original.Nonce != nil ==> c.effective.Nonce != nil && c.effective.Nonce != c.original.Nonce && (c.effective.Nonce.Type == nil <==> c.original.Nonce.Type == nil) && (c.effective.Nonce.ApplyToAllUDPPacket == nil <==> c.original.Nonce.ApplyToAllUDPPacket == nil) && (c.effective.Nonce.MinLen == nil <==> c.original.Nonce.MinLen == nil) && (c.effective.Nonce.MaxLen == nil <==> c.original.Nonce.MaxLen == nil) && pbi(c.effective.Nonce.MinLen) == pbi(c.original.Nonce.MinLen) && pbi(c.effective.Nonce.MaxLen) == pbi(c.original.Nonce.MaxLen)
+//@   ensures c.effective.Nonce != nil && c.effective.Nonce.MinLen != nil && c.effective.Nonce.MaxLen != nil && c.effective.Nonce.Type != nil && c.effective.Nonce.ApplyToAllUDPPacket != nil
+//@   ensures old(c.original.Nonce) != nil && old(c.original.Nonce.MinLen) != nil ==> *c.effective.Nonce.MinLen == old(*c.original.Nonce.MinLen)
+//@   ensures old(c.original.Nonce) != nil && old(c.original.Nonce.MaxLen) != nil ==> *c.effective.Nonce.MaxLen == old(*c.original.Nonce.MaxLen)
+//@   ensures 0 <= *c.effective.Nonce.MinLen && *c.effective.Nonce.MinLen <= *c.effective.Nonce.MaxLen && *c.effective.Nonce.MaxLen <= 12
